@@ -9,6 +9,22 @@ from typing import Callable
 from .. import gen, session
 
 
+SESSION_NOTE = (
+    " | session generator (shared): configurations = 2D/3D x with/without label image (int64/"
+    "int32/uint16/uint32/uint64) x scale None/ones/anisotropic/time-scale!=1 x single-key/"
+    "per-axis position x construction routes (graph without ids, graph with ids + registry, "
+    "DataFrame import, Tracks -> from_tracks) x optional features (also under renamed keys) x "
+    "custom float/str/bool features x node ids contiguous/sparse/including 0/in the millions x "
+    "ids and times as numpy integers x 1-7 frames (thorough: 20 % with 8-12 frames); "
+    "operations = all seven user actions with every argument class (forced, refusable, numpy-"
+    "typed, list/array edges, caller re-using its dict, several attribute keys, measurements "
+    "next to pixels, unwritable pixels), paint strokes through a driver that paints first "
+    "(multi-label, multi-frame erase, no-op, unchanged pixels reported), undo/redo (also via "
+    "the deprecated controller), multi-element TracksController calls, locality of follow-up "
+    "edits, re-use of ids of deleted nodes, history-heavy sessions and scripted scenarios"
+)
+
+
 def seed_for(*parts) -> int:
     import hashlib
 
